@@ -13,7 +13,7 @@ trap 'git -C /repo checkout -- . ' EXIT
 T=$(cargo test --offline 2>&1 | grep -E '^test result' | head -1)
 echo "repo tests: $T"
 case "$T" in *"45 passed; 0 failed"*) ;; *) echo "MUTANT-FAILS-REPO-TESTS"; exit 4;; esac
-cd /verif
+cd "${VROOT:-/verif}"
 CAUGHT=""
 for id in $IDS; do
   OUT=$(VERIF_SEED=${VERIF_SEED:-0} ./check "$id" --tier "${TIER:-quick}" 2>&1); rc=$?
